@@ -29,6 +29,22 @@ type Scenario struct {
 	Outcome func(w *World) string      // canonical observation (distinct-outcome count, determinism check)
 	Log     bool
 	Bounds  *Bounds // overrides the bounds of the check for this configuration
+	Reverse bool    // second default schedule: ties among enabled threads broken in descending name order
+}
+
+// withReversed doubles a configuration list: every configuration is also explored from the reversed default
+// schedule (the thread spawned last runs first), which brings interleavings that need k+1 deviations from one
+// default within k deviations of the other.
+func withReversed(scs []*Scenario) []*Scenario {
+	out := make([]*Scenario, 0, 2*len(scs))
+	for _, sc := range scs {
+		out = append(out, sc)
+		r := *sc
+		r.Name = sc.Name + " order=reversed"
+		r.Reverse = true
+		out = append(out, &r)
+	}
+	return out
 }
 
 type ExecResult struct {
@@ -84,6 +100,7 @@ func runScenario(t *testing.T, prop string, sc *Scenario, devs []vsched.Dev, kee
 		horizon = 60 * time.Second
 	}
 	s := vsched.New(devs, horizon)
+	s.Reverse = sc.Reverse
 	func() {
 		defer func() {
 			// synctest panics when the bubble cannot end (goroutines blocked for ever):
